@@ -4,17 +4,19 @@
  * Process (spawn helper, execvpe or /bin/sh -c) with a recording plugin.
  *
  * Byte strings are hex on the line ("-" = empty string).  Lists: elements joined by ",", "~" = empty list.
- *   val  := E | S:<hex> | A:<list>
+ *   val  := E | S:<hex> | A:<list> | B:<0|1> | N:<integer>     (Boolean, integer-valued Number; array elements are strings)
  *   cmd  := s:<hex> | a:<list>         the element / line prefix "@P" stands for the recording plugin's path
  *   arg  := <dkey>;<isdict>;<key|~>;<val>;<required>;<skip_key>;<repeat_key>;<order>;<sep|~>;<set_if val>
  *
  *   C <n> | <pluginhex>                                  fresh case: no custom variables, empty attributes
  *   V <s|h|c> <namehex> <val>                            custom variable on service / host / command
  *   T <s|h> <attr> <hex>                                 address address6 display_name notes notes_url action_url
+ *   N <idx> <hex>                                        `env` entry C09E_<idx> of the command (a macro string); applies to X and Y lines
  *   M <svc> <level> <esc> <hex> | ok <val> <missing> | err <kind>
  *   G <svc> <cmd> <nargs|-> <arg>* | ok sh:<hex> | ok argv:<list> | err <kind>
  *   X <svc> <cmd> <nargs|-> <arg>* <exit> <outhex> <timeout_s> <sleep_ds>
- *        | <ran> <argv list> <none|sh:<hex>|argv:<list>> <state> <exit> <outhex> <perf list> <gone> <markerhex>
+ *        | <ran> <argv list> <none|sh:<hex>|argv:<list>> <state> <exit> <outhex> <perf list> <gone> <markerhex> <env>
+ *          env := ~ | <idx>=<hex>+…   the C09E_ variables the plugin found in its environment; `!` = ScriptFunc threw
  *          (marker = the text the implementation appends for that exit status; oracle input, wording not compared;
  *           `err <kind>`: the kind is informational, the driver compares failure against failure only)
  *   H <svc> <level> <esc> <hex> | <st1> <v1> <m1> <cache> <st2> <v2> <m2>      ResolveMacros twice: fill resolvedMacros, then use it
@@ -29,7 +31,8 @@
  *   Z <signal> <op line>                                              the child executing <op line> died (0 = exited abnormally,
  *                                                                     14 = hung for 200 s); the run continues with the next line
  *   X lines take an optional 5th field after <sleep_ds>: what the plugin does on SIGTERM — t0..t3 = trap it and exit 0..3,
- *   ti = ignore it (must be SIGKILLed), - = default action.
+ *   ti = ignore it (must be SIGKILLed), - = default action; r<n> = the plugin prints its output and dies by signal <n>;
+ *   fk = the plugin forks a child that holds the output pipe and sleeps (<gone> then refers to that child).
  *
  * The parent process only generates / reads operation lines (it never calls the code under test); batches of them, cut at case
  * boundaries, are executed in forked children, so that a crash, abort or hang of the real code is attributed to the operation
@@ -53,6 +56,7 @@
 #include <signal.h>
 #include <sys/mman.h>
 #include <sys/wait.h>
+#include <cmath>
 
 using namespace icinga;
 using namespace vh;
@@ -128,12 +132,14 @@ static bool UnhexList(const B& s, std::vector<B>& out)
 	return true;
 }
 
-struct VVal { int kind = 0; B s; std::vector<B> a; }; /* 0 Empty, 1 String, 2 Array */
+struct VVal { int kind = 0; B s; std::vector<B> a; long long n = 0; }; /* 0 Empty, 1 String, 2 Array, 3 Boolean, 4 Number */
 
 static B ValTok(const VVal& v)
 {
 	if (v.kind == 0) return "E";
 	if (v.kind == 1) return "S:" + Hex(v.s);
+	if (v.kind == 3) return v.n ? "B:1" : "B:0";
+	if (v.kind == 4) return "N:" + std::to_string(v.n);
 	return "A:" + HexList(v.a);
 }
 
@@ -142,6 +148,13 @@ static bool ParseVal(const B& t, VVal& v)
 	if (t == "E") { v.kind = 0; return true; }
 	if (t.rfind("S:", 0) == 0) { v.kind = 1; return Unhex(t.substr(2), v.s); }
 	if (t.rfind("A:", 0) == 0) { v.kind = 2; return UnhexList(t.substr(2), v.a); }
+	if (t == "B:0" || t == "B:1") { v.kind = 3; v.n = t[2] == '1'; return true; }
+	if (t.rfind("N:", 0) == 0 && t.size() > 2) {
+		char *end = nullptr;
+		v.kind = 4;
+		v.n = strtoll(t.c_str() + 2, &end, 10);
+		return end && !*end && v.n > -1000000000000000LL && v.n < 1000000000000000LL;
+	}
 	return false;
 }
 
@@ -149,6 +162,8 @@ static Value ToValue(const VVal& v)
 {
 	if (v.kind == 0) return Empty;
 	if (v.kind == 1) return String(v.s);
+	if (v.kind == 3) return v.n != 0;
+	if (v.kind == 4) return (double)v.n;
 	ArrayData d;
 	for (const B& e : v.a) d.push_back(String(e));
 	return new Array(std::move(d));
@@ -169,6 +184,12 @@ static B ValueTok(const Value& v)
 	}
 	if (v.IsObject()) return "X";
 	if (v.GetType() == ValueEmpty) return "E";
+	if (v.IsBoolean()) return v.ToBool() ? "B:1" : "B:0";
+	if (v.IsNumber()) {
+		double d = v;
+		if (d != std::floor(d) || std::fabs(d) >= 1e15) return "X";
+		return "N:" + std::to_string((long long)d);
+	}
 	return "S:" + Hex(static_cast<String>(v).GetData());
 }
 
@@ -376,16 +397,41 @@ static B GoneState(const B& pidFile)
 }
 
 static B l_TermMode = "-";
+static std::map<B, B> l_EnvRaw;   /* idx -> macro string (N lines) */
 
 static Dictionary::Ptr PluginEnv(const B& dump, int exitCode, const B& out, int sleepDs)
 {
-	return new Dictionary({
+	Dictionary::Ptr env = new Dictionary({
 		{ "C09_TERM", String(l_TermMode) },
 		{ "C09_OUT", String(dump) },
 		{ "C09_EXIT", Convert::ToString(exitCode) },
 		{ "C09_PRINT", String(out.empty() ? B("") : Hex(out)) },
 		{ "C09_SLEEP_DS", Convert::ToString(sleepDs) }
 	});
+	for (const auto& kv : l_EnvRaw)
+		env->Set("C09E_" + kv.first, String(kv.second));
+	return env;
+}
+
+/* the C09E_ variables the plugin recorded */
+static B ReadEnvDump(const B& path)
+{
+	std::ifstream f(path, std::ios::binary);
+	if (!f) return "~";
+	B data((std::istreambuf_iterator<char>(f)), std::istreambuf_iterator<char>());
+	std::map<B, B> seen;
+	size_t p = 0;
+	while (p < data.size()) {
+		size_t q = data.find('\0', p);
+		if (q == B::npos) q = data.size();
+		B e = data.substr(p, q - p);
+		size_t eq = e.find('=');
+		if (eq != B::npos && eq > 5) seen[e.substr(5, eq - 5)] = e.substr(eq + 1);
+		p = q + 1;
+	}
+	B r;
+	for (const auto& kv : seen) { if (!r.empty()) r += "+"; r += kv.first + "=" + Hex(kv.second); }
+	return r.empty() ? B("~") : r;
 }
 
 static B l_LastDump;
@@ -417,6 +463,7 @@ static B RunCheck(bool svc, const Value& cmd, const Dictionary::Ptr& args, int e
 	l_LastDump = dump;
 	unlink(dump.c_str());
 	unlink((dump + ".pid").c_str());
+	unlink((dump + ".env").c_str());
 	l_Cmd->SetCommandLine(cmd);
 	l_Cmd->SetArguments(args);
 	l_Cmd->SetEnv(PluginEnv(dump, exitCode, out, sleepDs));
@@ -431,7 +478,13 @@ static B RunCheck(bool svc, const Value& cmd, const Dictionary::Ptr& args, int e
 		l_Done = true;
 		l_Cv.notify_all();
 	};
-	PluginCheckTask::ScriptFunc(checkable, cr, macros, useResolved);
+	try {
+		PluginCheckTask::ScriptFunc(checkable, cr, macros, useResolved);
+	} catch (const std::exception&) {
+		/* an `env` entry that cannot be resolved: the exception leaves ExecuteCommand (the checker reports it) */
+		Checkable::ExecuteCommandProcessFinishedHandler = nullptr;
+		return wait ? "0 ~ none 3 3 - ~ - " + Hex(SuffixFor(exitCode)) + " !" : "";
+	}
 	if (!wait) {
 		/* fill pass (pluginutility.cpp:74-75): nothing is started; an error is reported synchronously */
 		Checkable::ExecuteCommandProcessFinishedHandler = nullptr;
@@ -457,9 +510,10 @@ static B RunCheck(bool svc, const Value& cmd, const Dictionary::Ptr& args, int e
 	std::ostringstream o;
 	o << (ran ? 1 : 0) << " " << HexList(argv) << " " << CmdTok(cr->GetCommand()) << " " << (int)cr->GetState() << " "
 	  << (long)cr->GetExitStatus() << " " << Hex(cr->GetOutput().GetData()) << " " << HexList(perf) << " " << gone
-	  << " " << Hex(SuffixFor(exitCode));
+	  << " " << Hex(SuffixFor(exitCode)) << " " << ReadEnvDump(dump + ".env");
 	unlink(dump.c_str());
 	unlink((dump + ".pid").c_str());
+	unlink((dump + ".env").c_str());
 	return o.str();
 }
 
@@ -482,6 +536,7 @@ static B DoY(bool svc, const Value& cmd, const Dictionary::Ptr& args, int exitCo
 	int fillRan = stat(fillDump.c_str(), &st) == 0 ? 1 : 0;
 	unlink(fillDump.c_str());
 	unlink((fillDump + ".pid").c_str());
+	unlink((fillDump + ".env").c_str());
 	return cacheTok + " " + std::to_string(fillRan) + " " + direct + " " + cached;
 }
 
@@ -518,6 +573,7 @@ static B DoW(const B& text)
 	std::vector<B> argv = ReadDump(dump, ran);
 	unlink(dump.c_str());
 	unlink((dump + ".pid").c_str());
+	unlink((dump + ".env").c_str());
 	return B(ran ? "1 " : "0 ") + HexList(argv);
 }
 
@@ -539,6 +595,7 @@ static bool Exec(const B& lineIn)
 	o << line << " | ";
 	if (op == "C") {
 		ResetCase();
+		l_EnvRaw.clear();
 		o << Hex(l_Plugin);
 	} else if (op == "V" && w.size() == 4) {
 		B name; VVal v;
@@ -549,6 +606,11 @@ static bool Exec(const B& lineIn)
 	} else if (op == "T" && w.size() == 4) {
 		B v;
 		if (!Unhex(w[3], v) || !SetAttr(w[1][0], w[2], v)) return false;
+		o << "ok";
+	} else if (op == "N" && w.size() == 3) {
+		B v;
+		if (!Unhex(w[2], v) || w[1].empty() || w[1].find_first_not_of("0123456789") != B::npos) return false;
+		l_EnvRaw[w[1]] = v;
 		o << "ok";
 	} else if (op == "M" && w.size() == 5) {
 		B s;
@@ -652,7 +714,7 @@ static void Must(const B& line)
 	l_Batch.push_back(line);
 }
 
-static bool IsSetupLine(const B& l) { return l.size() > 1 && l[1] == ' ' && (l[0] == 'C' || l[0] == 'V' || l[0] == 'T'); }
+static bool IsSetupLine(const B& l) { return l.size() > 1 && l[1] == ' ' && (l[0] == 'C' || l[0] == 'V' || l[0] == 'T' || l[0] == 'N'); }
 
 static void FlushBatch()
 {
@@ -776,7 +838,10 @@ static B MacroString(Rng& r, int maxParts)
 static VVal RandVarValue(Rng& r)
 {
 	VVal v;
-	int k = (int)r.below(20);
+	static const long long NUMS[] = { 0, 1, 2, -1, 3306, 443, 123456789, -40, 10, 999999999 };
+	int k = (int)r.below(23);
+	if (k >= 22) { v.kind = 4; v.n = NUMS[r.below(NEL(NUMS))]; return v; }
+	if (k >= 20) { v.kind = 3; v.n = r.coin(); return v; }
 	if (k < 2) { v.kind = 2; int n = (int)r.below(4); for (int i = 0; i < n; i++) v.a.push_back(r.below(4) ? Dbl(RandText(r, 3, true)) : (r.coin() ? B("") : MacroString(r, 2))); }
 	else if (k < 4) { v.kind = 1; v.s = TRUTH[r.below(NEL(TRUTH))]; }
 	else if (k < 5) { v.kind = 0; }
@@ -786,9 +851,23 @@ static VVal RandVarValue(Rng& r)
 	return v;
 }
 
-static void GenSetup(Rng& r, long n)
+static void GenSetup(Rng& r, long n, bool withEnv = false)
 {
 	Must("C " + std::to_string(n));
+	if (withEnv) {
+		/* `env` entries of the command: macro strings, resolved without escaping, arrays joined by ';' */
+		int ne = (int)r.below(3);
+		for (int i = 0; i < ne; i++) {
+			B v;
+			switch (r.below(5)) {
+				case 0: v = MacroRef(r); break;
+				case 1: v = Dbl(RandText(r, 3, true)); break;
+				case 2: v = B("$") + VARS[r.below(NEL(VARS))] + "$"; break;
+				default: v = MacroString(r, 3); break;
+			}
+			Must("N " + std::to_string(i) + " " + Hex(v));
+		}
+	}
 	for (const char *lvl : { "s", "h", "c" })
 		for (const char *name : VARS)
 			if (r.below(5) < 2)
@@ -822,6 +901,8 @@ static B RandArg(Rng& r, int idx, bool safeKeys)
 		case 4: val.kind = 1; val.s = ""; break;
 		default: val.kind = 1; val.s = MacroRef(r); break;
 	}
+	if (r.below(12) == 0) { val = VVal(); val.kind = 4; val.n = r.coin() ? 3306 : (long long)r.below(3); }   /* value = 3306 */
+	else if (r.below(40) == 0) { val = VVal(); val.kind = 3; val.n = r.coin(); }
 	bool isdict = r.below(4) != 0;
 	std::ostringstream o;
 	if (!isdict) {
@@ -838,6 +919,7 @@ static B RandArg(Rng& r, int idx, bool safeKeys)
 		case 3: setif.kind = 1; setif.s = r.coin() ? "$v0$" : "$v1$"; break;
 		default: setif.kind = 0; break;
 	}
+	if (r.below(10) == 0) { setif = VVal(); setif.kind = r.coin() ? 3 : 4; setif.n = (long long)r.below(3) % (setif.kind == 3 ? 2 : 3); }   /* set_if = true / 2 */
 	B sep = "~";
 	switch (r.below(8)) { case 0: sep = Hex("="); break; case 1: sep = "-"; break; case 2: sep = Hex(", "); break; default: break; }
 	o << Hex(dkey) << ";1;" << key << ";" << ValTok(val) << ";" << (r.below(3) == 0) << ";" << (r.below(4) == 0) << ";" << (r.below(3) != 0)
@@ -1004,7 +1086,7 @@ static void Gen(uint64_t seed, bool thorough)
 	/* end to end */
 	int spawns = thorough ? 2500 : 400;
 	for (int c = 0; c < spawns; c++) {
-		GenSetup(r, ++n);
+		GenSetup(r, ++n, true);
 		for (int i = 0; i < 2; i++)
 			Must("X " + std::to_string(r.below(2)) + " " + RandCmdArgs(r, true) + " " + std::to_string(RandExit(r)) + " " + Hex(RandOutput(r)) + " 0 0");
 		if (c % 2 == 0)
@@ -1032,8 +1114,14 @@ static void Gen(uint64_t seed, bool thorough)
 	{
 		Must("C " + std::to_string(++n));
 		Must("X 0 a:" + HexList({ "@P", "x" }) + " - 0 " + Hex("partial") + " 1 300");
+		/* a string command line: when /bin/sh forks instead of exec'ing, the plugin is a GRANDCHILD that only the kill of the
+		 * process group reaches */
+		Must("X 1 s:" + Hex("@P y") + " - 0 " + Hex("partial") + " 1 300");
+		/* a script plugin blocked in an external command: the child it forked must be gone as well */
+		Must("C " + std::to_string(++n));
+		Must("X 0 a:" + HexList({ "@P", "forks" }) + " - 0 " + Hex("waiting") + " 1 300 fk");
 		if (thorough || seed % 2)
-			Must("X 1 s:" + Hex("@P y") + " - 0 " + Hex("partial") + " 1 300");
+			Must("X 1 s:" + Hex("@P forks; true") + " - 1 " + Hex("waiting") + " 1 300 fk");
 		static const char *TERM[] = { "t0", "t1", "t2", "t3", "ti" };
 		for (size_t k = 0; k < NEL(TERM); k++) {
 			if (!thorough && k == 3) continue;
@@ -1041,6 +1129,18 @@ static void Gen(uint64_t seed, bool thorough)
 			Must("X " + std::to_string(k % 2) + " a:" + HexList({ "@P", "trap" }) + " - " + std::to_string((int)(k % 3)) + " " + Hex("slow | a=1") + " 1 300 " + TERM[k]);
 			if (thorough)
 				Must("X 0 s:" + Hex("@P trap") + " - 2 " + Hex("slow") + " 1 300 " + TERM[k]);
+		}
+	}
+	/* a plugin that dies by a signal has no exit code: UNKNOWN whatever the signal's number (1 = SIGHUP, 2 = SIGINT, 3 = SIGQUIT, …) */
+	{
+		static const int SIGS[] = { 1, 2, 3, 6, 9, 10, 11, 13, 15 };
+		for (size_t k = 0; k < NEL(SIGS); k++) {
+			if (!thorough && k >= 3 && k % 3 != seed % 3) continue;
+			Must("C " + std::to_string(++n));
+			Must("X " + std::to_string(k % 2) + " a:" + HexList({ "@P", "dies" }) + " - " + std::to_string((int)(k % 4)) + " " + Hex("last words | a=1")
+				+ " 0 0 r" + std::to_string(SIGS[k]));
+			if (thorough || k < 2)
+				Must("X 0 s:" + Hex("@P dies") + " - 0 " + Hex("OK") + " 0 0 r" + std::to_string(SIGS[k]));
 		}
 	}
 }
